@@ -130,7 +130,7 @@ def r1_one_scope_function(ctx):
   builders = {}
   for f, call, d, callee in uses:
     ctx.instance(R)
-    if not ctx.check(R, callee is not None, call, f, call, 'the scope passed to the recipe manager is not the result of a scope-builder call'):
+    if not ctx.check(R + 'c', callee is not None, call, f, call, 'the scope passed to the recipe manager is not the result of a scope-builder call'):
       continue
     builders.setdefault(callee.fq, callee)
     # the builder is applied to the loop's own (op, subgraph tensors)
@@ -143,7 +143,7 @@ def r1_one_scope_function(ctx):
       it = l.iter.args[0] if isinstance(l.iter, ast.Call) and l.iter.args else l.iter
       owner = defuse.norm(inl0.inline(f, it.value)) if isinstance(it, ast.Attribute) else None
       ok = args[0] == names[-1] and owner is not None and args[1] == f'{owner}.tensors'
-    ctx.check(R, ok, d, f, d, 'the scope must be built from the operator being visited and the tensors of its own subgraph')
+    ctx.check(R + 'c', ok, d, f, d, 'the scope must be built from the operator being visited and the tensors of its own subgraph')
   # what every scope builder computes, as a table (independent of how it is written): the names of the operator's
   # existing OUTPUT tensors, each followed by ';' - so a virtual OUTPUT operator (no outputs) has the empty scope and a
   # rule whose regex names a tensor selects the operator PRODUCING it
